@@ -69,7 +69,7 @@ pub fn exec(ctx: &mut Ctx, case: &Case) {
 
 pub fn generate(ctx: &mut Ctx) {
     let mut bi = 0u64;
-    let maxlen = ctx.by_tier(2u64, 3u64);
+    let maxlen = if ctx.tiny() { 0 } else { ctx.by_tier(2u64, 3u64) };
     for init in INITS {
         for (kind, route) in [(0u64, 0u64), (0, 1), (0, 2), (0, 3), (1, 0), (1, 1), (1, 2), (2, 0), (2, 1)] {
             // PathBuf histories start from the path of the initial reference
@@ -90,7 +90,7 @@ pub fn generate(ctx: &mut Ctx) {
             }
         }
     }
-    let n = ctx.by_tier(40_000u64, 2_500_000u64) / ctx.nshards;
+    let n = ctx.random_budget(480, 40_000, 2_500_000);
     for i in 0..n {
         let mut rng = ctx.rng("hist", i);
         let mut o = gen::Opts::new(rng.chance(1, 2));
